@@ -93,6 +93,10 @@ func (c *Ctx) analyseBuf(rule string, fn *ssa.Function, pi int, regionIn region,
 			c.add("violated", rule, fn, shadow.Pos(), "a second append chain is started in the caller's spare capacity (buf[len(buf):]) while buf itself is appended to: the two chains share memory and overwrite each other when the capacity suffices")
 		}
 	}
+	// forked append chains: one buffer-derived slice value is the destination of two different appends that can both
+	// execute on one path, and the result of the earlier one is still used after the later one has run — both write the
+	// same spare capacity, so the later append overwrites what the earlier result is read from
+	c.forkedAppends(rule, fn, reg)
 	// effects
 	for _, b := range fn.Blocks {
 		for _, in := range b.Instrs {
@@ -194,6 +198,135 @@ func (c *Ctx) analyseBuf(rule string, fn *ssa.Function, pi int, regionIn region,
 		}
 	}
 	return writes, retRegion
+}
+
+// forkedAppends: see the call site in analyseBuf.
+func (c *Ctx) forkedAppends(rule string, fn *ssa.Function, reg map[ssa.Value]region) {
+	byDst := map[ssa.Value][]*ssa.Call{}
+	for _, b := range fn.Blocks {
+		for _, in := range b.Instrs {
+			call, ok := in.(*ssa.Call)
+			if !ok || len(call.Call.Args) == 0 {
+				continue
+			}
+			appendLike := false
+			if bi, ok := call.Call.Value.(*ssa.Builtin); ok && bi.Name() == "append" {
+				appendLike = true
+			} else if f := call.Call.StaticCallee(); f != nil && appendOnly[origin(f).String()] {
+				if _, isSlice := call.Type().Underlying().(*types.Slice); isSlice {
+					appendLike = true
+				}
+			}
+			if dst := call.Call.Args[0]; appendLike && reg[dst] != rNone && reg[dst] != rBuffer {
+				byDst[dst] = append(byDst[dst], call)
+			}
+		}
+	}
+	// after(a, b): instruction b can execute after instruction a on some path
+	reach := map[*ssa.BasicBlock]map[*ssa.BasicBlock]bool{}
+	reachable := func(from *ssa.BasicBlock) map[*ssa.BasicBlock]bool {
+		if r, ok := reach[from]; ok {
+			return r
+		}
+		r := map[*ssa.BasicBlock]bool{}
+		work := append([]*ssa.BasicBlock{}, from.Succs...)
+		for len(work) > 0 {
+			b := work[len(work)-1]
+			work = work[:len(work)-1]
+			if r[b] {
+				continue
+			}
+			r[b] = true
+			work = append(work, b.Succs...)
+		}
+		reach[from] = r
+		return r
+	}
+	idx := func(in ssa.Instruction) int {
+		for i, x := range in.Block().Instrs {
+			if x == in {
+				return i
+			}
+		}
+		return -1
+	}
+	after := func(a, b ssa.Instruction) bool {
+		if a.Block() == b.Block() && idx(b) > idx(a) {
+			return true
+		}
+		return reachable(a.Block())[b.Block()]
+	}
+	// afterSame(a, b, v): b can execute after a while v still holds the same dynamic value, i.e. on a path that does not
+	// enter the block defining v again (a loop-carried phi is a new slice on every iteration)
+	afterSame := func(a, b ssa.Instruction, v ssa.Value) bool {
+		if a.Block() == b.Block() && idx(b) > idx(a) {
+			return true
+		}
+		var def *ssa.BasicBlock
+		if in, ok := v.(ssa.Instruction); ok {
+			def = in.Block()
+		}
+		seen := map[*ssa.BasicBlock]bool{}
+		work := append([]*ssa.BasicBlock{}, a.Block().Succs...)
+		for len(work) > 0 {
+			bl := work[len(work)-1]
+			work = work[:len(work)-1]
+			if seen[bl] || bl == def {
+				continue
+			}
+			seen[bl] = true
+			work = append(work, bl.Succs...)
+		}
+		return seen[b.Block()]
+	}
+	for dst, calls := range byDst {
+		for _, a1 := range calls {
+			for _, a2 := range calls {
+				if a1 == a2 || !afterSame(a1, a2, dst) {
+					continue
+				}
+				// values derived from a1's result without copying: appends, re-slices, phis
+				derived := map[ssa.Value]bool{a1: true}
+				for changed := true; changed; {
+					changed = false
+					for v := range derived {
+						for _, u := range *v.Referrers() {
+							var d ssa.Value
+							switch x := u.(type) {
+							case *ssa.Slice:
+								if x.X == v {
+									d = x
+								}
+							case *ssa.Phi:
+								d = x
+							case *ssa.Call:
+								if len(x.Call.Args) > 0 && x.Call.Args[0] == v && reg[x] != rNone {
+									d = x
+								}
+							}
+							if d != nil && !derived[d] && d != ssa.Value(a2) && d != dst {
+								derived[d] = true
+								changed = true
+							}
+						}
+					}
+				}
+				for v := range derived {
+					for _, u := range *v.Referrers() {
+						if u == ssa.Instruction(a2) || !after(a2, u) {
+							continue
+						}
+						if _, isDbg := u.(*ssa.DebugRef); isDbg {
+							continue
+						}
+						c.add("violated", rule, fn, a2.Pos(), fmt.Sprintf("two append chains fork from one slice of the caller's buffer: the append at line %d and this one write the same spare capacity, and the earlier result is still used afterwards (line %d) — with enough capacity the later append overwrites it", c.Prog.Fset.Position(a1.Pos()).Line, c.Prog.Fset.Position(u.Pos()).Line))
+						goto next
+					}
+				}
+			next:
+			}
+		}
+	}
 }
 
 // bufRegions computes, for every value of fn that may alias parameter pi (a []byte), which region of the
@@ -501,7 +634,37 @@ func (c *Ctx) inputROFrom(fn *ssa.Function, roots map[ssa.Value]bool, depth int,
 					if x.Op == token.MUL && alias[x.X] {
 						mark(x)
 					}
+				case *ssa.Store:
+					// a local variable that lives in a cell (captured by a closure, or address taken): the cell then
+					// points to a slice sharing the input's bytes, and every load of it is such a slice
+					if a, ok := x.Addr.(*ssa.Alloc); ok && alias[x.Val] {
+						if _, isSlice := x.Val.Type().Underlying().(*types.Slice); isSlice {
+							mark(a)
+						}
+					}
 				}
+			}
+		}
+	}
+	// closures see the captured cells and values
+	for _, b := range fn.Blocks {
+		for _, in := range b.Instrs {
+			mc, ok := in.(*ssa.MakeClosure)
+			if !ok {
+				continue
+			}
+			cf, _ := mc.Fn.(*ssa.Function)
+			if cf == nil {
+				continue
+			}
+			roots := map[ssa.Value]bool{}
+			for i, bv := range mc.Bindings {
+				if alias[bv] && i < len(cf.FreeVars) {
+					roots[cf.FreeVars[i]] = true
+				}
+			}
+			if len(roots) > 0 {
+				c.inputROFrom(cf, roots, depth+1, seen)
 			}
 		}
 	}
